@@ -293,6 +293,14 @@ def run_case(case):
             if extra:
                 ptree["unrelated"] = F("bin", 0o640, T2)
                 ptree["sub/unrelated2"] = F("a", 0o600, T1)
+                # leftovers of every kind: links to directories (inside / outside), to files, dangling; a tree
+                ptree["unrelated-dirlink-abs"] = L("/etc")
+                ptree["unrelated-dirlink-rel"] = L("sub")
+                ptree["unrelated-filelink"] = L("t")
+                ptree["unrelated-dangling"] = L("nowhere/at/all")
+                ptree["unrelated-dir"] = D(0o750)
+                ptree["unrelated-dir/inner"] = F("a", 0o600, T2)
+                ptree["sub/unrelated-dirlink-up"] = L("..")
             if ptree or i == 0:
                 build(d, {k: (L(v[1].replace("{ROOT}", src)) if v[0] == "link" else v) for k, v in ptree.items()}, d)
             dests.append(d)
